@@ -55,6 +55,7 @@ class Stats:
         self.expected_failures = 0
         self.samples = []
         self.replays = 0
+        self.reps = []  # one history per discovered state
 
 
 def explore(ctx, execute, max_depth, chunk=8, selfcheck_every=101, seen=None, stats=None, root=()):
@@ -106,6 +107,7 @@ def explore(ctx, execute, max_depth, chunk=8, selfcheck_every=101, seen=None, st
                     seen.add(res["key"])
                     st.states += 1
                     nxt.append((h, res["enabled"]))
+                    st.reps.append(h)
                     if len(st.samples) < 5 and depth >= 2:
                         st.samples.append({"history": list(h), "state": str(res["key"])[:300]})
             # determinism: violations and a fixed subset are executed a second time
